@@ -716,8 +716,13 @@ fn wrap_decompile_to_stdout(
         };
         let writer = io::BufWriter::new(writer);
 
-        crate::Formatter::with_config(writer, fmt_config)
-            .fmt(&ast).map_err(|e| truth.emit(error!("{:#}", e)))
+        let mut formatter = crate::Formatter::with_config(writer, fmt_config);
+        formatter.fmt(&ast).map_err(|e| truth.emit(error!("{:#}", e)))?;
+
+        // Finish explicitly.  Both the formatter and the BufWriter would write their pending data
+        // when dropped, but errors that occur during a drop are silently ignored.
+        let mut writer = formatter.into_inner().map_err(|e| truth.emit(error!("{:#}", e)))?;
+        io::Write::flush(&mut writer).map_err(|e| truth.emit(error!("while writing output: {}", e)))
     })
 }
 
